@@ -1,9 +1,9 @@
 """property id -> rules, explanation of what is / is not decided"""
-from rules import r_coord, r_keyid, r_opcode, r_doaction, r_cancel, r_idle, r_loop, r_traverse, r_repeat, r_chv2, r_wait, r_macro, r_seq, r_override, r_reload, r_pipeline, r_dynmacro, r_vkey, r_layers, r_panic, r_prodcons, r_span, r_rec
+from rules import r_coord, r_keyid, r_opcode, r_doaction, r_cancel, r_idle, r_loop, r_traverse, r_repeat, r_chv2, r_wait, r_macro, r_seq, r_override, r_reload, r_pipeline, r_dynmacro, r_vkey, r_layers, r_panic, r_prodcons, r_span, r_rec, r_evict
 
 PROPS = {
     "C01": {
-        "rules": [r_coord.run, r_doaction.rule_state_push, r_cancel.run, r_chv2.rule_rel],
+        "rules": [r_coord.run, r_doaction.rule_state_push, r_cancel.run, r_chv2.rule_rel, r_evict.run],
         "explanation": "Decides structural clauses of 'no stuck output': (R-COORD) every State variant created at a "
                        "coordinate is removable by Release at that coordinate and the three coordinate predicates agree; "
                        "(R-STATE-PUSH) arms of do_action that create coordinate-keyed state do so on every path and the custom "
@@ -48,7 +48,7 @@ PROPS = {
                        "millisecond — functions of run-time values",
     },
     "C05": {
-        "rules": [r_wait.run_all],
+        "rules": [r_wait.run_all, r_evict.run_c05],
         "explanation": "Decides: (R-WAIT) each waiting_into_hold/tap/timeout clears its slot on every path before do_action (a "
                        "decision is consumed once) and performs an action whose provenance is exactly the hold / tap / "
                        "timeout_action field; Layout::tick and process_extra_waitings dispatch the four WaitingAction variants to "
@@ -59,7 +59,7 @@ PROPS = {
                        "keys — value-level",
     },
     "C06": {
-        "rules": [r_doaction.rule_osh_arms, r_doaction.rule_osh_repress],
+        "rules": [r_doaction.rule_osh_arms, r_doaction.rule_osh_repress, r_evict.run_c06],
         "explanation": "Decides: every arm of do_action (21 Action variants) notifies the one-shot state machine of the press, "
                        "delegates to an inner action, or defers the action (R-OSH-ARMS); macro Press/Tap events notify too.",
         "not_decided": "which key is 'the next one', timeout arithmetic, stacking semantics — run-time values",
@@ -90,7 +90,7 @@ PROPS = {
                        "table's semantic reasons are reviewed, not machine-checked",
     },
     "C08": {
-        "rules": [r_macro.run_all, r_cancel.run],
+        "rules": [r_macro.run_all, r_cancel.run, r_evict.run_c08],
         "explanation": "Decides: (R-MACRO-BAL) the macro compiler parse_macro_item_impl emits, on every path to an Ok return, a "
                        "Release event from the same source for every Press event it emits (single keys, output chords, held "
                        "modifier groups); (R-CANCEL) each of the sites that clear the running macros also removes the macro-held "
